@@ -410,6 +410,34 @@ class WriterDriver(explore.Driver):
                             ok = gen.arrays_equal(ds[feat][:], e)
                         if not ok:
                             bad(W, "wrong-data-dclab", feat, feat=feat)
+                        # lazy readers: negative index, slices, single event
+                        try:
+                            if feat == "contour":
+                                ok2 = gen.arrays_equal(ds[feat][-1], e[-1]) \
+                                    and all(gen.arrays_equal(a, b) for a, b in
+                                            zip(ds[feat][n // 2:], e[n // 2:]))
+                            elif feat == "trace":
+                                t0 = sorted(e)[0]
+                                ok2 = gen.arrays_equal(ds[feat][t0][n - 1],
+                                                       e[t0][n - 1]) and \
+                                    gen.arrays_equal(ds[feat][t0][:n // 2],
+                                                     e[t0][:n // 2])
+                            else:
+                                ok2 = gen.arrays_equal(ds[feat][n - 1],
+                                                       e[n - 1]) and \
+                                    gen.arrays_equal(ds[feat][n // 2:],
+                                                     e[n // 2:]) and \
+                                    len(ds[feat]) == n
+                        except Exception as ex:
+                            ok2 = False
+                            bad(W, "exception", f"reading {feat}: "
+                                f"{type(ex).__name__}: {ex}",
+                                exc=type(ex).__name__, feat=feat)
+                        if not ok2:
+                            bad("dclab.rtdc_dataset.fmt_hdf5.events",
+                                "wrong-data-lazy-access",
+                                f"{feat}: index / slice access differs",
+                                feat=feat)
                     for name, lines in mdl["logs"].items():
                         if name not in ds.logs or ds.logs[name] != lines:
                             longer = any(len(li.encode()) > 100
